@@ -66,6 +66,13 @@ def _case(draw):
         'positional': st.booleans(),
     })
     clear = st.fixed_dictionaries({'op': st.just('clear')})
+    # a traced function whose body itself clears the statistics, queries them or calls other traced functions (e.g. a traced epoch()
+    # that resets the trace at its start and runs traced steps): its own sample is recorded when IT returns
+    inner_call = st.fixed_dictionaries({'op': st.just('call'), 'f': st.integers(0, 3), 'dur': st.integers(0, 2 ** 10).map(lambda k: k / 1024.0),
+                                        'raises': st.none(), 'ret': st.sampled_from(RET_KINDS), 'nargs': st.just(0), 'kwargs': st.just([])})
+    inner = st.lists(st.one_of(clear, clear, inner_call, inner_call, query), min_size=1, max_size=4)
+    nested = st.builds(lambda c, i: dict(c, inner=i), call, inner)
+    call = st.one_of(call, call, call, call, nested)
     ops = draw(st.lists(st.sampled_from(['call'] * 10 + ['query'] * 6 + ['clear']).flatmap({'call': call, 'query': query, 'clear': clear}.__getitem__),
                          min_size=draw(st.sampled_from([1, 6, 12, 20])), max_size=40))
     return {'nfuncs': nfuncs, 'start': start, 'sync': sync, 'ops': ops}
@@ -75,7 +82,7 @@ class C20(Prop):
     id = 'C20'
     title = 'Tracing is transparent and its statistics are exact'
     rule = ('Hypothesis draws programs of 1-40 operations {call(function, dyadic duration, return kind or '
-            'exception, args/kwargs), query(average, max_history in None|1..10), clear} over 1-4 traced '
+            'exception, args/kwargs; one call in five has a body that itself clears, queries or calls other traced functions), query(average, max_history in None|1..10), clear} over 1-4 traced '
             'functions (two share a __name__), with kfac.tracing.time replaced by an injected clock; a '
             'dictionary model name->list of durations is run in lock-step and every query is compared '
             'exactly (rational arithmetic). Non-trivial: some name has >=3 completed calls, some query '
@@ -88,7 +95,7 @@ class C20(Prop):
     ]
     examples = {'quick': 600, 'thorough': 4000}
     shards = {'quick': 2, 'thorough': 16}
-    required_labels = {'quick': ['nontrivial=True', 'raised=True', 'short_window=True', 'cleared=True'],
+    required_labels = {'quick': ['nontrivial=True', 'raised=True', 'short_window=True', 'cleared=True', 'nested_clear=True'],
                        'thorough': ['nontrivial=True', 'raised=True', 'short_window=True', 'cleared=True', 'sync=True']}
 
     fuzz = {'thorough': {'runs': 20000, 'max_time': 60, 'procs': 4}}
@@ -120,13 +127,20 @@ class C20(Prop):
             tracing.clear_trace()
 
     def _run(self, case, tracing, clock):
-        current = {}
+        stack = []
+        state = {'bad': None}
 
         def make(i):
             def body(*args, **kwargs):
-                cur = current['call']
+                cur = stack[-1]
                 cur['got'] = (args, kwargs)
                 clock.now += cur['dur']
+                for sub in cur['inner']:
+                    if sub['op'] == 'call' and (sub['f'] % case['nfuncs'] == i or NAMES[sub['f'] % case['nfuncs']] == NAMES[i]):
+                        continue                      # no recursion into a function of the same name
+                    bad = do(sub, 'inner of op')
+                    if bad is not None and state['bad'] is None:
+                        state['bad'] = bad
                 if cur['exc'] is not None:
                     raise cur['exc']
                 return cur['ret']
@@ -138,29 +152,36 @@ class C20(Prop):
         traced = [tracing.trace(sync=case['sync'])(f) for f in raw]
 
         model: dict[str, list[Fraction]] = {}
-        labels = {'raised': False, 'short_window': False, 'cleared': False, 'sync': case['sync']}
+        labels = {'raised': False, 'short_window': False, 'cleared': False, 'sync': case['sync'], 'nested_clear': False}
         avg_seen = set()
-        for idx, op in enumerate(case['ops']):
+
+        def do(op, idx):
             if op['op'] == 'call':
+                fi = op['f'] % case['nfuncs']
                 args = tuple(object() for _ in range(op['nargs']))
                 kwargs = {k: object() for k in op['kwargs']}
                 exc = _mk_exc(op['raises']) if op['raises'] else None
                 ret = _mk_ret(op['ret'])
-                current['call'] = {'dur': op['dur'], 'exc': exc, 'ret': ret, 'got': None}
-                name = NAMES[op['f']]
+                frame = {'dur': op['dur'], 'exc': exc, 'ret': ret, 'got': None, 'inner': op.get('inner', [])}
+                stack.append(frame)
+                name = NAMES[fi]
+                t0 = Fraction(clock.now)
                 try:
-                    got = traced[op['f']](*args, **kwargs)
+                    got = traced[fi](*args, **kwargs)
                 except BaseException as e:  # noqa: BLE001 - compared by identity below
+                    stack.pop()
                     if exc is None or e is not exc:
                         return violation(f'op {idx}: traced call raised {e!r}, undecorated raises {exc!r}', 'raise-mismatch')
                     labels['raised'] = True
                 else:
+                    stack.pop()
                     if exc is not None:
                         return violation(f'op {idx}: exception {exc!r} was swallowed (returned {got!r})', 'exception-swallowed')
                     if got is not ret:
                         return violation(f'op {idx}: returned {got!r} instead of the function\'s own object {ret!r}', 'return-mismatch')
-                    model.setdefault(name, []).append(Fraction(op['dur']))
-                rec = current['call']['got']
+                    # the sample of a call is the time between its entry and its return (its body may have called other traced functions)
+                    model.setdefault(name, []).append(Fraction(clock.now) - t0)
+                rec = frame['got']
                 if rec is None:
                     return violation(f'op {idx}: wrapped function was not called', 'not-called')
                 if len(rec[0]) != len(args) or any(a is not b for a, b in zip(rec[0], args)) or \
@@ -170,6 +191,8 @@ class C20(Prop):
                 tracing.clear_trace()
                 model.clear()
                 labels['cleared'] = True
+                if stack:
+                    labels['nested_clear'] = True
                 got = tracing.get_trace()
                 if got != {}:
                     return violation(f'op {idx}: get_trace() after clear_trace() = {got!r}', 'clear')
@@ -184,8 +207,8 @@ class C20(Prop):
                     win = durs if mh is None else durs[-mh:]
                     if len(win) < len(durs):
                         labels['short_window'] = True
-                    s = sum(win, Fraction(0))
-                    exp[name] = float(s / len(win)) if avg else float(s)
+                    s_ = sum(win, Fraction(0))
+                    exp[name] = float(s_ / len(win)) if avg else float(s_)
                 avg_seen.add(avg)
                 if set(got) != set(exp):
                     return violation(f'op {idx}: get_trace names {sorted(got)} != expected {sorted(exp)}', 'names')
@@ -194,6 +217,14 @@ class C20(Prop):
                         return violation(
                             f'op {idx}: get_trace(average={avg}, max_history={mh})[{name!r}] = {got[name]!r}, '
                             f'expected {exp[name]!r} from samples {[float(x) for x in model[name]]}', 'statistic')
+            return None
+
+        for idx, op in enumerate(case['ops']):
+            bad = do(op, idx)
+            if bad is None and state['bad'] is not None:
+                bad = state['bad']
+            if bad is not None:
+                return bad
         # the recorder must hold exactly the model's samples at the end
         final = tracing.get_trace(average=False, max_history=None)
         exp_final = {n: float(sum(d, Fraction(0))) for n, d in model.items()}
